@@ -132,6 +132,20 @@ func init() {
 			return e.uf(name, []*T{args[1].(*T)}, 64)
 		},
 		// verifWritesShared reports (as a Go bool) nothing natively; symbolic runs use write tracking
+		// verifMapOrderOne(on): from here on, ONE execution of a range over a map (which one: every
+		// choice is explored on its own path) visits the entries in another order
+		"verifMapOrderOne": func(e *Engine, st *St, args []Value, fn *ssa.Function) Value {
+			if args[0].(*T).IsTrue() {
+				st.heap.set(permObj, e.c64(1))
+			} else {
+				st.heap.set(permObj, e.c64(0))
+			}
+			return nil
+		},
+		// verifDeepEqual(a, b): structural equality of two values (reflect.DeepEqual natively)
+		"verifDeepEqual": func(e *Engine, st *St, args []Value, fn *ssa.Function) Value {
+			return e.deepEq(st, args[0], args[1], 0)
+		},
 		"verifSymbolic": func(e *Engine, st *St, args []Value, fn *ssa.Function) Value {
 			return e.S.True
 		},
@@ -465,4 +479,116 @@ func init() {
 		}
 		return nil
 	}
+}
+
+// deepEq: structural equality over the heap (pointers are followed; maps and functions must be
+// identical objects).
+func (e *Engine) deepEq(st *St, a, b Value, depth int) *T {
+	S := e.S
+	if depth > 24 {
+		e.unsupported("verifDeepEqual: structure deeper than 24 levels")
+	}
+	switch x := a.(type) {
+	case nil:
+		return S.Bool(b == nil)
+	case *T:
+		y, ok := b.(*T)
+		if !ok || y.W != x.W {
+			return S.False
+		}
+		return S.Eq(x, y)
+	case *StructV:
+		y, ok := b.(*StructV)
+		if !ok || len(y.F) != len(x.F) {
+			return S.False
+		}
+		r := S.True
+		for i := range x.F {
+			r = S.And(r, e.deepEq(st, x.F[i], y.F[i], depth+1))
+		}
+		return r
+	case *ArrayV:
+		y, ok := b.(*ArrayV)
+		if !ok || len(y.E) != len(x.E) {
+			return S.False
+		}
+		r := S.True
+		for i := range x.E {
+			r = S.And(r, e.deepEq(st, x.E[i], y.E[i], depth+1))
+		}
+		return r
+	case *TupleV:
+		y, ok := b.(*TupleV)
+		if !ok || len(y.V) != len(x.V) {
+			return S.False
+		}
+		r := S.True
+		for i := range x.V {
+			r = S.And(r, e.deepEq(st, x.V[i], y.V[i], depth+1))
+		}
+		return r
+	case *SliceV:
+		y, ok := b.(*SliceV)
+		if !ok {
+			return S.False
+		}
+		if x.IsStr || y.IsStr {
+			return e.stringEq(x, y)
+		}
+		if !x.Len.IsConst() || !y.Len.IsConst() {
+			e.unsupported("verifDeepEqual on a slice of symbolic length")
+		}
+		if x.Len.Int() != y.Len.Int() {
+			return S.False
+		}
+		r := S.True
+		for i := int64(0); i < x.Len.Int(); i++ {
+			va := e.Load(st, e.elemPtr(x, e.c64(i)), "deep equality")
+			vb := e.Load(st, e.elemPtr(y, e.c64(i)), "deep equality")
+			r = S.And(r, e.deepEq(st, va, vb, depth+1))
+		}
+		return r
+	case *PtrV:
+		y, ok := b.(*PtrV)
+		if !ok {
+			return S.False
+		}
+		if len(x.Alts) != 1 || len(y.Alts) != 1 {
+			e.unsupported("verifDeepEqual on a pointer with several alternatives")
+		}
+		if x.Alts[0].Obj == 0 || y.Alts[0].Obj == 0 {
+			return S.Bool(x.Alts[0].Obj == y.Alts[0].Obj)
+		}
+		if x.Alts[0].Obj == y.Alts[0].Obj && samePath(x.Alts[0].Path, y.Alts[0].Path) {
+			return S.True
+		}
+		return e.deepEq(st, e.Load(st, x, "deep equality"), e.Load(st, y, "deep equality"), depth+1)
+	case *IfaceV:
+		y, ok := b.(*IfaceV)
+		if !ok {
+			return S.False
+		}
+		if len(x.Alts) != 1 || len(y.Alts) != 1 {
+			e.unsupported("verifDeepEqual on an interface with several alternatives")
+		}
+		if x.Alts[0].T == nil || y.Alts[0].T == nil {
+			return S.Bool(x.Alts[0].T == nil && y.Alts[0].T == nil)
+		}
+		if !types.Identical(x.Alts[0].T, y.Alts[0].T) {
+			return S.False
+		}
+		return e.deepEq(st, x.Alts[0].V, y.Alts[0].V, depth+1)
+	case *MapV:
+		y, ok := b.(*MapV)
+		if !ok {
+			return S.False
+		}
+		return e.ptrEq(x.Ref, y.Ref)
+	case *FuncV:
+		return S.True
+	case *OpaqueV:
+		return S.True
+	}
+	e.unsupported(fmt.Sprintf("verifDeepEqual on %T", a))
+	return nil
 }
